@@ -733,19 +733,33 @@ func (h *Hydrator) CatchUp(ctx context.Context, fromTXID, toTXID ltx.TXID) error
 	}
 	defer itr.Close()
 
+	txid := fromTXID
 	for itr.Next() {
 		info := itr.Item()
 		if info.MaxTXID > toTXID {
 			break
 		}
 
+		// Level 0 files may have been removed by retention while the hydration
+		// file was closed. Applying the remaining ones would skip transactions.
+		if info.MinTXID > txid+1 {
+			return fmt.Errorf("non-contiguous ltx files for catch-up: have up to %s but next file starts at %s", txid, info.MinTXID)
+		}
+
 		if err := h.ApplyLTX(ctx, info); err != nil {
 			return fmt.Errorf("apply ltx to hydrated file: %w", err)
 		}
 
+		txid = info.MaxTXID
 		h.mu.Lock()
-		h.txid = info.MaxTXID
+		h.txid = txid
 		h.mu.Unlock()
+	}
+	if err := itr.Err(); err != nil {
+		return fmt.Errorf("iterate ltx files for catch-up: %w", err)
+	}
+	if txid < toTXID {
+		return fmt.Errorf("hydration catch-up incomplete: reached %s, want %s", txid, toTXID)
 	}
 
 	return nil
